@@ -28,7 +28,20 @@ fn game_from(sc: &Value) -> Option<Game> {
 /// a game whose final position is the search root; half of them carry history
 pub fn gen_root(rng: &mut Rng) -> Game {
     loop {
-        let g = if rng.chance(1, 2) {
+        let g = if rng.chance(1, 4) {
+            // pawns one step from promotion with pieces to capture on the last rank, after a
+            // short tactical walk: capture-promotions inside quiescence
+            let mut p = workload::template_promotion(rng);
+            if rng.chance(1, 2) {
+                p = workload::mirror(&p);
+            }
+            let k = rng.below(3) as usize;
+            let pre = workload::random_walk(rng, &p, k, workload::Bias::Tactical);
+            for m in pre {
+                p = p.apply(m);
+            }
+            Game { start: p, moves: vec![], source: "promotion-template" }
+        } else if rng.chance(1, 2) {
             let p = workload::gen_position(rng);
             Game { start: p, moves: vec![], source: "no-history" }
         } else if rng.chance(1, 3) {
